@@ -159,7 +159,7 @@ struct TaskSim : Harness {
     for (auto t : T) delete t; T.clear();
     for (size_t i = 0; i < tasks.size(); i++) {
       Task *t = new Task(); t->plan = tasks[i]; if (!t->plan.has("faults")) t->plan.set("faults", Json::array());
-      t->sim.L = layout_for((int) i); t->sim.own_handlers = false; t->sim.worker_init();
+      t->sim.L = layout_for((int) i); t->sim.own_handlers = false; t->sim.ext_variant = (int) i & 3; t->sim.worker_init();
       t->sim.A.on_event = alloc_hook; t->sim.A2.on_event = alloc_hook; t->sim.K.on_event = code_hook; t->sim.K2.on_event = code_hook; t->sim.K.hash_code = t->sim.K2.hash_code = true;
       for (auto &f : t->plan.at("faults").a) if (f[0].s == "clock_jump") { t->jump_s = f[1].num() * 86400; task_counts["fault_clock_jump"]++; }  // per-task simulated clock: the same jump solo and interleaved
       t->stack = (uint8_t *) mmap((void *) (0x2f0000000000ULL + i * 0x10000000ULL), t->stack_len, PROT_READ | PROT_WRITE, MAP_PRIVATE | MAP_ANONYMOUS | MAP_FIXED_NOREPLACE, -1, 0);
